@@ -493,7 +493,7 @@ AttemptStep ==
                        \* didPatch and re-resolves the same manifest - the same iteration repeats forever
                        /\ run' = [run EXCEPT !.spin = TRUE]
                        /\ pc' = [ph |-> "spin", i |-> 0]
-                  ELSE IF man2 = a.man THEN Finish(a, TRUE)
+                  ELSE IF man2 = a.man THEN Finish(a, FALSE)      \* repaired code (ce5b7bda, e5477405): ErrPatchImpossible, no patch
                   ELSE /\ run' = [run EXCEPT !.att = [a EXCEPT !.man = man2, !.g = g2, !.vs = Found(sc, man2, g2, run.ign), !.n = a.n + 1]]
                        /\ UNCHANGED pc
      ELSE LET tr == ToRelax(sc, a) IN
@@ -560,8 +560,8 @@ DevExplicit(p) == "C12-explicit-introduced" \in Devs /\ sc.opt.explicit # {} /\ 
 DevNilRange == "C11-update-nil-range" \in Devs /\ run.crash
 DevSpin == "C11-override-ineffective-pin-loop" \in Devs /\ run.spin
 \* Both remaining ones come from the Maven rule that a hard (range) requirement anywhere beats a soft version:
-\*  "C11-override-unfixing-patch": with the loop repaired (ce5b7bda) the attempt ends and the override that did not take
-\*      effect stays in a patch that fixes nothing: a requirement is rewritten although the package does not move up
+\*  "C11-override-unfixing-patch" (fix e5477405; appeared with ce5b7bda): the attempt ended and the override that did
+\*      not take effect stayed in a patch that fixed nothing: a requirement rewritten although the package did not move up
 \*  "C11-update-maven-hard-range": the bulk update rewrites requirements to soft versions without resolving; where a
 \*      hard range on the same package exists the rewrite has no effect (or lets another range take over)
 DevUnfixing(p) == "C11-override-unfixing-patch" \in Devs /\ Strategy = "override" /\ p.fixed = {}
